@@ -25,5 +25,6 @@ def check(model, tier):
     expressions.r12_2_function_lookup(ctx)
     expressions.r12_3_connectives(ctx)
     expressions.r12_4_operand_roles(ctx)
+    expressions.r12_6_factories(ctx)
     expressions.r13_1_as_trivial(ctx, rule="R12.5")
     return run
